@@ -148,7 +148,7 @@ fn account(ctx: &Ctx, s: &str, class: &str) {
 
 fn run(ctx: &Ctx) {
     ctx.shrink_iters.set(30_000);
-    let cases = ctx.share(ctx.tier.pick(500_000, 16_000_000));
+    let cases = ctx.share(ctx.tier.pick(1_000_000, 20_000_000));
     ctx.search("token-soup", "text", cases, token_soup(), |s, want_case| {
         let v = check_total(s);
         if !want_case {
